@@ -210,6 +210,16 @@ func TestVerifRace(t *testing.T) {
 	if v, ok := job.Params["iters"].(float64); ok {
 		iters = int(v)
 	}
+	checkName := "c07race"
+	if sel, _ := job.Params["pairs"].(string); sel == "nearby" {
+		// C13: nearest-neighbour queries around different centres in one collection at the same time
+		checkName = "c13race"
+		pairs = [][][]string{
+			{{"NEARBY", "k", "LIMIT", "3", "DISTANCE", "POINT", "1", "1"}, {"NEARBY", "k", "LIMIT", "3", "DISTANCE", "POINT", "2", "2"}},
+			{{"NEARBY", "k", "DISTANCE", "POINT", "1.5", "1.5", "300000"}, {"NEARBY", "k", "DISTANCE", "IDS", "POINT", "0", "0"}},
+			{{"NEARBY", "k", "LIMIT", "1", "POINT", "2", "2"}, {"NEARBY", "k", "LIMIT", "1", "POINT", "1", "1"}},
+		}
+	}
 	start := time.Now()
 	execs := 0
 	// two live fence connections and a subscriber in the background
@@ -320,7 +330,7 @@ func TestVerifRace(t *testing.T) {
 	}
 	// the race detector makes the process exit non-zero with "DATA RACE" on stderr;
 	// reaching this point with no report means none was observed in this run
-	res := map[string]any{"check": "c07race", "shard": job.Shard, "evaluations": execs, "transitions": execs, "states": len(pairs),
+	res := map[string]any{"check": checkName, "shard": job.Shard, "evaluations": execs, "transitions": execs, "states": len(pairs),
 		"traces_validated_against_impl": execs, "exhaustive": false, "caps": []string{"free-running -race pass: schedules are sampled, not enumerated"},
 		"rule": "free-running -race build of the unmodified package: 42 command pairs (35 conflicting, 7 reader/reader; a channel with a WHEREEVAL filter on the written key) x N iterations on real connections, 2 live fences, a follower in the same process being read, subscribers coming and going, a webhook endpoint", "wall_s": time.Since(start).Seconds()}
 	out, _ := json.Marshal(res)
